@@ -597,4 +597,3 @@ func generate(prop string, seed int64, tier string) *Plan {
 }
 
 func (g *gen) opC13() Op { return g.op(0) }
-func (g *gen) opC15() Op { return g.op(0) }
